@@ -42,7 +42,7 @@ open Ecal.C08 Ecal.Gen.C08
 theorem gen_table_ok : tableOk = true := by decide
 
 /-- The real table has the operators the model talks about (non-vacuity of everything below). -/
-theorem gen_table_nonempty : infixOps.length ≥ 19 ∧ prefixOps.length = 9 ∧ prefixOffset = 20 := by decide
+theorem gen_table_nonempty : infixOps.length ≥ 19 ∧ prefixOps.length ≥ 3 := by decide
 
 /-- On every pair of operator heads of the real table and every child index, the expression-level
     rule `nb` is the rule extracted from prettyprinter.go — an obligation whenever `ppNeedsBrackets` could be
@@ -50,13 +50,34 @@ theorem gen_table_nonempty : infixOps.length ≥ 19 ∧ prefixOps.length = 9 ∧
     helpers). If it could not, the rule is "not established": the check says so in its evidence and runs
     the exhaustive depth-2/3 operator nestings through the real printer instead. -/
 theorem abstract_rule_is_generated_rule : shapeOk = true →
-    (allHeads.all fun p => allHeads.all fun c => [0, 1, 2].all fun i =>
-      nb realPowers realExc p c i == needsBrackets (bnOf p) (bnOf c) i) = true := by decide
+    (allHeads.all fun p => allHeads.all fun c => [0, 1, 2].all fun i => [true, false].all fun pure =>
+      nb realPowers realExc p c i pure == needsBrackets (bnOf p) (bnOf c pure) i) = true := by decide
 
-/-- … and so is the rule of the full printer model (Printer.lean). -/
+/-- … and so is the rule of the full printer model (Printer.lean); for `pure = false` the child node carries
+    a left operand `%` of its own binding, so that the model's own `isProductChain` answers false where the
+    chain test is reached. -/
 theorem model_rule_is_generated_rule : shapeOk = true →
-    (allHeads.all fun p => allHeads.all fun c => [0, 1, 2].all fun i =>
-      Ecal.Print.needsBrackets (nodeOf p) (nodeOf c) i == needsBrackets (bnOf p) (bnOf c) i) = true := by decide
+    (allHeads.all fun p => allHeads.all fun c => [0, 1, 2].all fun i => [true, false].all fun pure =>
+      Ecal.Print.needsBrackets (nodeOf p) (nodeOf c pure) i ==
+        needsBrackets (bnOf p) (bnOf c (Ecal.Print.isProductChain (nodeOf c pure) (nodeOf p).binding)) i) = true := by decide
+
+/-- **Bracket rule of `return <value>`** (fixes/C08-return-operand-brackets): under every operator head of
+    the real table — infix, prefix, `let`, `not`, sink attribute, either side — a return with a value is
+    parenthesised, by the expression-level rule and (when translated) by the rule extracted from the Go
+    source; as a parent it never parenthesises its operand (it is parsed with right binding 0 and takes
+    everything that follows). -/
+theorem return_operand_bracketed : realPowers.stmt iReturn = true ∧
+    (allHeads.all fun p => [0, 1].all fun i =>
+      (p == Head.atom || p == Head.pre iReturn || nb realPowers realExc p (.pre iReturn) i true) &&
+      !(nb realPowers realExc (.pre iReturn) p i true) &&
+      (!shapeOk || p == Head.atom || p == Head.pre iReturn || needsBrackets (bnOf p) (bnOf (.pre iReturn)) i)) = true := by
+  decide
+
+/-- `(return a) + b`, `not (return a) and b`, `x := (return 1) + 2` are read back unchanged. -/
+example : [Expr.bin 0 (Expr.pre iReturn (Expr.atom 0)) (Expr.atom 1),
+           Expr.bin 1 (Expr.atom 0) (Expr.bin 2 (Expr.pre iReturn (Expr.atom 1)) (Expr.atom 2)),
+           Expr.pre 1 (Expr.bin 3 (Expr.pre iReturn (Expr.atom 0)) (Expr.atom 1))].all
+    (fun e => run realPowers 40 0 (printToks realPowers realExc e) == some (e, [])) = true := by decide
 
 theorem infix_bindings_positive : (infixOps.all fun e => decide (0 < e.2)) = true := by decide
 
@@ -86,17 +107,17 @@ theorem real_exc_tight : ∀ K k, realExc K k = true → realPowers.bp K ≤ rea
     `ppNeedsBrackets` are admissible (`Ok`): every unparenthesised operator binds tighter than the right
     binding in force, and no prefix operator is followed by an operator it would capture — i.e. the
     printer parenthesises wherever the minimal unparser must. -/
-theorem printer_brackets_suffice (e : Expr) (h : hasExc realExc e = false) :
+theorem printer_brackets_suffice (e : Expr) (h : hasExc realPowers realExc e = false) :
     Ok realPowers (annot realPowers realExc e) 0 0 :=
   annot_ok realPowers realExc real_bp_pos real_exc_tight e 0 0 h (adm_zero realPowers real_bp_pos e)
 
-example : hasExc realExc (Expr.bin 1 (Expr.atom 0) (Expr.bin 1 (Expr.atom 1) (Expr.pre 2 (Expr.atom 2)))) = false := by decide
+example : hasExc realPowers realExc (Expr.bin 1 (Expr.atom 0) (Expr.bin 1 (Expr.atom 1) (Expr.pre 2 (Expr.atom 2)))) = false := by decide
 
 /-- The same for any table: positive infix bindings, prefix operand parsed at `pb k + off`, and an
     exception that only concerns children binding at least as tightly. -/
 theorem printer_brackets_suffice_any_table (P : Powers) (exc : Nat → Nat → Bool)
     (hpos : ∀ k, 0 < P.bp k) (hexc : ∀ K k, exc K k = true → P.bp K ≤ P.bp k)
-    (e : Expr) (h : hasExc exc e = false) : Ok P (annot P exc e) 0 0 :=
+    (e : Expr) (h : hasExc P exc e = false) : Ok P (annot P exc e) 0 0 :=
   annot_ok P exc hpos hexc e 0 0 h (adm_zero P hpos e)
 
 /-- Admissible parentheses are read back: the Pratt parser (relation) returns the tree. -/
@@ -108,7 +129,7 @@ theorem admissible_parses (P : Powers) (p : PExpr) (h : Ok P p 0 0) : Run P 0 p.
     class `mul-right-brackets`: the executable, fuel-indexed Pratt parser reads the printed tokens back
     to exactly `e` and consumes all of them.
     (`_partial`: the full statement has no hypothesis `h`; it is false, see `mul_right_brackets_witness`.) -/
-theorem print_parse_expr_partial (e : Expr) (h : hasExc realExc e = false) :
+theorem print_parse_expr_partial (e : Expr) (h : hasExc realPowers realExc e = false) :
     ∃ fuel, run realPowers fuel 0 (printToks realPowers realExc e) = some (e, []) := by
   have hr := admissible_parses realPowers _ (printer_brackets_suffice e h)
   rw [strip_annot] at hr
@@ -120,7 +141,7 @@ example : run realPowers 20 0 (printToks realPowers realExc
 
 /-- **Idempotence on operator trees**: printing what the parser reads from the printed text gives the
     same text (comment-free, blank-line-free expressions; outside `mul-right-brackets`). -/
-theorem print_idempotent_expr_partial (e : Expr) (h : hasExc realExc e = false) :
+theorem print_idempotent_expr_partial (e : Expr) (h : hasExc realPowers realExc e = false) :
     ∃ fuel e', run realPowers fuel 0 (printToks realPowers realExc e) = some (e', []) ∧
       printToks realPowers realExc e' = printToks realPowers realExc e := by
   obtain ⟨fuel, hf⟩ := print_parse_expr_partial e h
@@ -135,14 +156,14 @@ theorem minimal_unparser_parses (P : Powers) (hpos : ∀ k, 0 < P.bp k) (e : Exp
 /-- **Negative witness, known finding `mul-right-brackets`**: `a * (b * c)` is printed as `a * b * c`,
     which the parser reads as `(a * b) * c` — a different tree. -/
 theorem mul_right_brackets_witness :
-    ∃ e e', hasExc realExc e = true ∧
+    ∃ e e', hasExc realPowers realExc e = true ∧
       run realPowers 10 0 (printToks realPowers realExc e) = some (e', []) ∧ e' ≠ e :=
   ⟨Expr.bin iTimes (Expr.atom 0) (Expr.bin iTimes (Expr.atom 1) (Expr.atom 2)),
    Expr.bin iTimes (Expr.bin iTimes (Expr.atom 0) (Expr.atom 1)) (Expr.atom 2), by decide, by decide, by decide⟩
 
 /-- … and with a quotient: `a * (b / c)` comes back as `(a * b) / c`. -/
 theorem mul_right_brackets_witness_div :
-    ∃ e e', hasExc realExc e = true ∧
+    ∃ e e', hasExc realPowers realExc e = true ∧
       run realPowers 10 0 (printToks realPowers realExc e) = some (e', []) ∧ e' ≠ e :=
   ⟨Expr.bin iTimes (Expr.atom 0) (Expr.bin iDiv (Expr.atom 1) (Expr.atom 2)),
    Expr.bin iDiv (Expr.bin iTimes (Expr.atom 0) (Expr.atom 1)) (Expr.atom 2), by decide, by decide, by decide⟩
@@ -166,24 +187,47 @@ def lexLit (fuel : Nat) : Q.Str → Option (Lit × Q.Str)
     | none => none
   | _ => none
 
-/-- **lex (quote v) = v on the REAL models** — the functions the drivers run: `Ecal.Print.quote` (what the
-    printer model writes for a string token, model of strconv.Quote) and `Ecal.Lex.lexValue` (the string
-    lexer of the lexer model: opener, scan for the closing quote with the escape tracking of fix 02ff58e,
-    strconv.Unquote). Wherever the printed literal stands in the input (after `pre`, before `rest`),
+/-- **lex (quote v) = v on the REAL models, independent of the Unicode tables.** `Ecal.Print.quoteWith ip` is
+    the printer model's strconv.Quote with printability predicate `ip` (`Ecal.Print.quote = quoteWith isPrint`
+    is what the drivers run; `isPrint` consults the table regenerated from the Go toolchain);
+    `Ecal.Lex.lexValue` is the string lexer of the lexer model (opener, scan for the closing quote with the
+    escape tracking of fix 02ff58e, strconv.Unquote). For EVERY predicate `ip` that does not call the newline
+    printable and EVERY byte string `v` (invalid UTF-8, U+FFFD, non-characters, control characters, quotes,
+    backslashes, `{{`): wherever the printed literal stands in the input (after `pre`, before `rest`),
     `lexValue` started at its first byte emits exactly one token — a string token with value `v`,
     `allowEscapes = true` (interpolating kind), `identifier = false`, positioned at the literal — and stops
-    directly behind the literal. For EVERY byte string `v`: invalid UTF-8, U+FFFD, control characters,
-    quotes, backslashes, `{{`. -/
-theorem quote_lex_roundtrip (l0 : Ecal.Lex.L) (pre v rest : List Nat) (hv : ∀ b ∈ v, b < 256)
-    (hinp : l0.inp = (pre ++ (Ecal.Print.quote v ++ rest)).toArray) (hpos : l0.pos = pre.length) :
+    directly behind the literal. -/
+theorem quote_lex_roundtrip (ip : Nat → Bool) (h10 : ip 10 = false)
+    (l0 : Ecal.Lex.L) (pre v rest : List Nat) (hv : ∀ b ∈ v, b < 256)
+    (hinp : l0.inp = (pre ++ (Ecal.Print.quoteWith ip v ++ rest)).toArray) (hpos : l0.pos = pre.length) :
     ∃ t : Ecal.Lex.Tok, (Ecal.Lex.lexValue l0).2 = Ecal.Lex.Next.token ∧
       (Ecal.Lex.lexValue l0).1.toks = l0.toks.push t ∧
       t.id = Ecal.Lex.tSTRING ∧ t.val = v ∧ t.allowEscapes = true ∧ t.identifier = false ∧
-      t.pos = pre.length ∧ (Ecal.Lex.lexValue l0).1.pos = pre.length + (Ecal.Print.quote v).length ∧
+      t.pos = pre.length ∧ (Ecal.Lex.lexValue l0).1.pos = pre.length + (Ecal.Print.quoteWith ip v).length ∧
       (Ecal.Lex.lexValue l0).1.inp = l0.inp :=
-  QR.lexValue_quote l0 pre v rest hv hinp hpos
+  QR.lexValue_quote ip h10 l0 pre v rest hv hinp hpos
 
-example : (Ecal.Lex.lexValue { inp := (Ecal.Print.quote [255, 34, 92, 10, 239, 191, 189]).toArray }).1.toks.toList.map
+/-- the instance the drivers run: `Ecal.Print.quote` with the model's `isPrint` -/
+theorem quote_lex_roundtrip_model (l0 : Ecal.Lex.L) (pre v rest : List Nat) (hv : ∀ b ∈ v, b < 256)
+    (hinp : l0.inp = (pre ++ (Ecal.Print.quote v ++ rest)).toArray) (hpos : l0.pos = pre.length) :
+    ∃ t : Ecal.Lex.Tok, (Ecal.Lex.lexValue l0).2 = Ecal.Lex.Next.token ∧
+      (Ecal.Lex.lexValue l0).1.toks = l0.toks.push t ∧
+      t.id = Ecal.Lex.tSTRING ∧ t.val = v ∧ t.allowEscapes = true :=
+  have ⟨t, h1, h2, h3, h4, h5, _⟩ :=
+    quote_lex_roundtrip Ecal.Print.isPrint (by decide) l0 pre v rest hv hinp hpos
+  ⟨t, h1, h2, h3, h4, h5⟩
+
+/-- **Known finding `raw-string-kind` on the real models**: whatever the kind of the original token, the token
+    read back from the printed literal is interpolating — a raw literal (`allowEscapes = false`) never comes
+    back as itself. -/
+theorem raw_string_kind_lost (t0 : Ecal.Lex.Tok) (hraw : t0.allowEscapes = false) (hv : ∀ b ∈ t0.val, b < 256)
+    (l0 : Ecal.Lex.L) (hinp : l0.inp = (Ecal.Print.quote t0.val).toArray) (hpos : l0.pos = 0) :
+    ∃ t : Ecal.Lex.Tok, (Ecal.Lex.lexValue l0).1.toks = l0.toks.push t ∧ t.val = t0.val ∧ t ≠ t0 := by
+  obtain ⟨t, _, h2, _, h4, h5⟩ := quote_lex_roundtrip_model l0 [] t0.val [] hv (by simpa using hinp) (by simpa using hpos)
+  exact ⟨t, h2, h4, fun e => by rw [e, hraw] at h5; exact absurd h5 (by simp)⟩
+
+example : (Ecal.Lex.lexValue { inp := (Ecal.Print.quoteWith (fun r => decide (32 ≤ r ∧ r < 127))
+      [255, 34, 92, 10, 239, 191, 189]).toArray }).1.toks.toList.map
     (fun t => (t.id, t.val, t.allowEscapes)) = [(Ecal.Lex.tSTRING, [255, 34, 92, 10, 239, 191, 189], true)] := by decide
 
 /-- The same on the simplified string model of the prototype (escapes `\\"`, `\\\\`, `\\n`, `\\U…`;
@@ -216,28 +260,29 @@ theorem raw_string_kind_witness :
   intro fuel
   cases fuel <;> simp [lexLit, printLit, Q.quote, Q.quoteBody, Q.scanBody, Q.unq]
 
-/-! ## templates on the REAL parser model (`Ecal.Parse.run`, the model of C07's `parse_wellformed`)
+/-! ## building blocks on the REAL parser model (`Ecal.Parse.run`, the model of C07's `parse_wellformed`)
 
-Token level, comment-free. Proved so far: the terminal template and the prefix template (with a hole
-hypothesis in continuation form). NOT proved yet (covered by the correspondence run only): infix template
+Token level, comment-free; these two lemmas are about the PARSER only (hand-given token sequences of the
+shape the terminal / prefix templates produce) — no printer function occurs in them. Proved so far: terminal
+and prefix shape (with a hole hypothesis in continuation form). NOT proved yet (covered by the correspondence run only): infix template
 on this model, assignment, if/elif/else, loops, try/except/otherwise/finally, func, return with value,
 import, sink, mutex, list / map literals, funccall, composition access, statement lists — and therefore
 `print_parse_stmt_partial`. -/
 
-/-- **Terminal template re-parses** (`break`, `continue`, `true`, `false`, `null`, number and string tokens):
+/-- **The parser reads a terminal** (`break`, `continue`, `true`, `false`, `null`, number and string tokens):
     a token whose null denotation is `ndTerm`, followed by a token that does not bind tighter than `rbp`, is
     read back by `run` as its own node, and the parser stops at the follower. -/
-theorem template_terminal_reparses (f rbp bb : Nat) (t nx : Ecal.Lex.Tok) (rest : List Ecal.Lex.Tok)
+theorem parser_reads_terminal (f rbp bb : Nat) (t nx : Ecal.Lex.Tok) (rest : List Ecal.Lex.Tok)
     (hn : TP.Real nx) (hterm : (TP.nodeOf bb t).nud = .term) (hb : (TP.nodeOf bb nx).binding ≤ rbp) :
     Ecal.Parse.run (f+2) rbp (TP.st bb (TP.nodeOf bb t) (nx :: rest)) =
       .ok (TP.nodeOf bb t) (TP.st bb (TP.nodeOf bb nx) rest) :=
   TP.run_term f rbp bb t nx rest hn hterm hb
 
-/-- **Prefix template re-parses** (`not x`, `-x`, `+x`, `let x`, sink attributes `kindmatch x` … `suppresses x`):
+/-- **The parser reads keyword + operand** (`not x`, `-x`, `+x`, `let x`, sink attributes `kindmatch x` … `suppresses x`):
     if the hole's tokens are read back as `v` with right binding `binding + 20` and the parser then stands
     in front of a token not binding tighter than `rbp`, keyword + hole is read back as the keyword's node
     with the single child `v`. -/
-theorem template_prefix_reparses (f rbp bb : Nat) (t h : Ecal.Lex.Tok) (ts' : List Ecal.Lex.Tok)
+theorem parser_reads_prefix (f rbp bb : Nat) (t h : Ecal.Lex.Tok) (ts' : List Ecal.Lex.Tok)
     (v nxn : Ecal.Parse.Node) (rest : List Ecal.Lex.Tok) (hh : TP.Real h)
     (hpre : (TP.nodeOf bb t).nud = .prefix)
     (hole : Ecal.Parse.run (f+1) ((TP.nodeOf bb t).binding + 20) (TP.st bb (TP.nodeOf bb h) ts') =
@@ -246,5 +291,19 @@ theorem template_prefix_reparses (f rbp bb : Nat) (t h : Ecal.Lex.Tok) (ts' : Li
     Ecal.Parse.run (f+3) rbp (TP.st bb (TP.nodeOf bb t) (h :: ts')) =
       .ok ((TP.nodeOf bb t).add (some v)) (TP.st bb nxn rest) :=
   TP.run_prefix f rbp bb t h ts' v nxn rest hh hpre hole hb
+
+/-- non-vacuity: the tokens `true <EOF>` and `not true <EOF>` satisfy the hypotheses — `not true` is read
+    back as `not(true)` by instantiating both lemmas -/
+example :
+    let tTrue : Ecal.Lex.Tok := ⟨61, 4, [116, 114, 117, 101], false, false, 0, 1, 5⟩
+    let tNot : Ecal.Lex.Tok := ⟨54, 0, [110, 111, 116], false, false, 0, 1, 1⟩
+    let tEof : Ecal.Lex.Tok := ⟨1, 8, [], false, false, 0, 1, 9⟩
+    Ecal.Parse.run 4 0 (TP.st 0 (TP.nodeOf 0 tNot) [tTrue, tEof]) =
+      .ok ((TP.nodeOf 0 tNot).add (some (TP.nodeOf 0 tTrue))) (TP.st 0 (TP.nodeOf 0 tEof) []) := by
+  intro tTrue tNot tEof
+  have hE : TP.Real tEof := by unfold TP.Real; decide
+  have hT : TP.Real tTrue := by unfold TP.Real; decide
+  have hole := parser_reads_terminal 0 ((TP.nodeOf 0 tNot).binding + 20) 0 tTrue tEof [] hE (by decide) (by decide)
+  exact parser_reads_prefix 1 0 0 tNot tTrue [tEof] _ _ [] hT (by decide) hole (by decide)
 
 end Ecal.Props.C08
